@@ -95,6 +95,9 @@ pub struct ExecSpec {
     /// unrelated content (drawn from this seed) when the run starts. They must be replaced, not extended.
     #[serde(default)]
     pub stale_outputs: Option<u64>,
+    /// Pipe personality only: `input` is delivered this many times in a row (streams of several GiB).
+    #[serde(default)]
+    pub input_repeat: Option<u64>,
 }
 
 impl ExecSpec {
@@ -118,6 +121,7 @@ impl ExecSpec {
             timeout_ms: 60_000,
             seq_pass: false,
             stale_outputs: None,
+            input_repeat: None,
         }
     }
     pub fn cmdline(&self) -> String {
@@ -520,6 +524,7 @@ pub fn run_config(spec: &ExecSpec) -> RunConfig {
 pub fn io_plan(spec: &ExecSpec, input_id: Option<(u64, u64)>) -> IoPlan {
     IoPlan {
         stdin_data: if spec.input_mode == InputMode::Pipe { Some(spec.input.clone()) } else { None },
+        stdin_repeat: spec.input_repeat.unwrap_or(1),
         input_file: input_id,
         short_reads: spec.io.short_reads,
         eintr_every: spec.io.eintr_every,
